@@ -312,6 +312,15 @@ def scenario_grow(sseed, kind):
                                  on_create=on_create, on_end=on_end, discover=discover, fair_finish=False)
                 else:
                     run_schedule(o, R, steps=R.randint(10, 70), on_create=on_create, on_end=on_end, discover=discover, fair_finish=False)
+                if R.random() < 0.4:
+                    # the process stops and a new one resumes the search (what was running is queued again): what has been tried
+                    # stays tried, whatever the space looked like when it was tried
+                    quiet(o.save)
+                    o2 = gen.clone_oracle(o, d)
+                    quiet(o2.reload)
+                    tags["grow-resumed"] += 1
+                    run_schedule(o2, R, steps=R.randint(10, 50), ntuners=R.randint(1, 3), outcomes=["C", "C", "C", "NAN", "INV"],
+                                 on_create=on_create, on_end=on_end, discover=discover, fair_finish=False)
             except Violation as v:
                 v.also = soft
                 raise
